@@ -127,6 +127,15 @@ CLAIMED = {
             "map features return cp*1e9 nm / E in Pa / the current rating or NaN with one warning and are not "
             "cached. One object per curve and pixel placement are afmformats' (assumed, exercised bounded).",
             "3 C20"),
+    "C19": ("other", "contract-based deductive verification: finite-map contracts (symbolic file content, json assumed "
+            "to round-trip) and a statelessness frame on the real cli.profile.Profile methods; bounded stand-ins for "
+            "legacy parsing, the interactive dialogue (scripted input) and the batch statistics file",
+            "For every file content and key: writes store exactly that key, reads return the stored value or the "
+            "documented default and write it through, a new object changes nothing that is stored, fit parameters "
+            "are the model defaults overridden by exactly the stored value/vary entries, and Profile objects keep "
+            "no profile data of their own (so the clauses compose over any sequence of calls on any number of "
+            "objects). The 18-prompt dialogue is out of reach of path-based symbolic execution and is bounded.",
+            "3 C19"),
 }
 
 NOT_APPLICABLE = {
